@@ -43,12 +43,16 @@ def _env_job(job):
     r = random.Random('c14/%d/%d' % (seed, k))
     g = G.Gen(r, G.Profile(matlab_safe=True, max_decls=5))
     text = G.text(G.tokens(g.module()))
+    # constructs whose handling involves name mangling / registries: serializable classes incl. one whose C++ name
+    # contains a comma (typedef alias for BOOST_CLASS_EXPORT), virtual classes (RTTI registry), enums
+    text += (' namespace c14 { template<T={double, c14::K}, U={int}> virtual class PairSer { PairSer(); void serialize() const; '
+             'enum Mode { A, B }; }; class K { K(); void serializable() const; }; } ')
     d = scratch()
     try:
         src = os.path.join(d, 'in.i')
         with open(src, 'w') as f:
             f.write(text)
-        boost = r.random() < 0.6
+        boost = (k % 3 != 2)
         runs = []
         seeds = [0, 1, 2, 3, 12345, 'random'][: (4 if tier == 'quick' else 6)]
         cwds = [d, '/', os.path.join(d, 'sub')]
